@@ -100,41 +100,60 @@ def check(run, F, tier):
     for loc, path in sorted(LOCATION_FN.items()):
         if path not in found:
             continue
-        ex = explore.Explorer(F, loop_k=2)
-        ps = ex.run(path)
-        interned = ex.interned_rev
+        # Exact evaluation on concrete lists: the validator is run on every list [v], [v, v], [v, UserProperty] and
+        # [UserProperty, v] whose elements are Property variants with symbolic payloads.  Iteration over such a list is
+        # element-by-element whatever the idiom (for loop, all / any / filter().count() / try_for_each ...), so the
+        # accept / reject outcome is read off the returned Result, not off the shape of the code.
+        fobj = found[path]
+        pidx = [i for i in range(1, fobj["argc"] + 1) if "mqtt::packet::property::Property" in fobj["locals"][i]]
+        if len(pidx) != 1:
+            r1.violation("location:" + loc, "validator %s: property-list parameter not identified" % path)
+            continue
+        pidx = pidx[0]
+        pty = fobj["locals"][pidx]
+        pname = fobj.get("names", {}).get(str(pidx), "arg%d" % pidx)
+
+        def outcome(variants):
+            def setup(exx, st, fr):
+                items = [("agg", PROP, vn, (("sym", ("elem", i, vn)),)) for i, vn in enumerate(variants)]
+                cs = exx.cseq_new(st, "props", items)
+                OPT = "std::option::Option"
+                if pty.startswith("&std::option::Option<"):
+                    st.heap[(("arg", pname), ())] = ("agg", OPT, "Some", (cs,))
+                elif pty.startswith("std::option::Option<&"):
+                    st.heap[(("CS", "argbox", 0), ())] = cs
+                    st.heap[(fr.root(pidx), ())] = ("agg", OPT, "Some", (("ref", ("CS", "argbox", 0), ()),))
+                elif pty.startswith("&"):
+                    st.heap[(("arg", pname), ())] = cs
+                else:
+                    st.heap[(fr.root(pidx), ())] = cs
+            exv = explore.Explorer(F, loop_k=2)
+            res = set()
+            for p in exv.run(path, setup=setup):
+                if p.kind == "return" and p.ret and p.ret[0] == "agg" and p.ret[1] == "std::result::Result":
+                    res.add(p.ret[2] == "Ok")
+                elif p.kind == "return":
+                    res.add(None)
+                elif p.kind == "cut":
+                    res.add(None)
+            return res
         one = {}
         two = {}
-        for p in ps:
-            if p.kind != "return":
-                continue
-            r = p.ret
-            if not (r and r[0] == "agg" and r[1] == "std::result::Result"):
-                continue
-            okres = (r[2] == "Ok")
-            seq = element_variants(F, p, interned)
-            if loc == "auth":
-                # properties present; acceptance may depend on the reason code: existential over it
-                pass
-            if not seq or seq[-1] is not None:
-                # early Err return inside the loop: the rejected element is the last one
-                elems = [s for s in seq if s is not None]
-                if okres:
-                    continue
-            else:
-                elems = seq[:-1]
-            if len(elems) == 1:
-                e = elems[0]
-                names = [e] if isinstance(e, str) else [x for x in allv if x not in e[1]]
-                for nme in names:
-                    one.setdefault(nme, set()).add(okres)
-            elif len(elems) == 2:
-                a, b = elems
-                an = [a] if isinstance(a, str) else [x for x in allv if x not in a[1]]
-                bn = [b] if isinstance(b, str) else [x for x in allv if x not in b[1]]
-                for x in an:
-                    for y in bn:
-                        two.setdefault((x, y), set()).add(okres)
+        FILL = "UserProperty"
+        try:
+            for v in allv:
+                one[v] = outcome([v])
+                two[(v, v)] = outcome([v, v])
+                if v != FILL:
+                    two[(v, FILL)] = outcome([v, FILL])
+                    two[(FILL, v)] = outcome([FILL, v])
+        except explore.ExploreError as e:
+            r1.violation("location:" + loc, "validator %s cannot be evaluated on concrete lists: %s" % (path, e))
+            continue
+        if any(None in s for s in list(one.values()) + list(two.values())):
+            und = [k for k, s in list(one.items()) + list(two.items()) if None in s][:4]
+            r1.violation("location:" + loc + "/undecided", "validator %s: outcome not decided for lists %s (an iteration idiom the interpreter does not model)" % (path.split("::")[-1], und))
+            continue
         for v in allv:
             if v not in props:
                 continue
@@ -145,6 +164,12 @@ def check(run, F, tier):
             acc = (True in one.get(v, set())) or any(True in s for (x, y), s in two.items() if v in (x, y) and x != y)
             always_rej = one.get(v) == {False} and not any(True in s for (x, y), s in two.items() if v in (x, y))
             key = "%s/%s" % (loc, v)
+            if want_in and not acc:
+                # the property may need a companion (Authentication Data needs Authentication Method): try every partner
+                for w in allv:
+                    if w != v and (True in outcome([v, w]) or True in outcome([w, v])):
+                        acc = True
+                        break
             if want_in and not acc:
                 r1.violation(key, "%s must be accepted in %s but every explored list containing it is rejected" % (v, loc))
                 continue
